@@ -58,7 +58,7 @@ def run_tool(backend, entry, outdir, extra=None):
 def modules_for(tier_, seed_):
     mods = [f() for f in bridgegen.M0]
     if tier_ == "thorough":
-        for i in range(12):
+        for i in range(24):
             mods.append(bridgegen.random_module(seed_, i))
     else:
         for i in range(2):
@@ -336,7 +336,7 @@ def enum_module(tier_, seed_):
             defs.append(ed.variants)
     for v in ADVERSARIAL_ENUMS:
         defs.append(v)
-    nrand = 12 if tier_ == "thorough" else 2
+    nrand = 24 if tier_ == "thorough" else 2
     for i in range(nrand):
         for ed in bridgegen.random_module(seed_, i).enums.values():
             defs.append(ed.variants)
